@@ -135,7 +135,7 @@ def run(ctx):
     nonsq_p = 0.06 if ({"kron_diag_nonsquare_factors", "blockdiag_diag_nonsquare_blocks"} & present) else 0.25
     mism, attributed = [], {}
     tcases, gcases = [], []
-    EX, AU = ("exact",), ("auto",)
+    EX, AU, AX = ("exact",), ("auto",), ("autoexp",)
     # ---- T1: sizes 1..6, every offset in [-n-1, n+1], Exact and the default Auto, trace with both
     for n in range(1, 7):
         for _ in range(ctx.budget(14, 220)):
@@ -147,7 +147,9 @@ def run(ctx):
             dqs = [(k, a) for k in offsets_small(n) for a in (EX, AU)]
             if rnd.random() < 0.2:
                 dqs += [(k, ("tol", 1, 2)) for k in (0, 1)]          # Auto(tol=0.5): Hutchinson for the generic parts
-            tcases.append(dict(tree=t, n=n, dqs=dqs, tqs=[EX, AU], allk=[], cls="small"))
+            lo, hi = L.straddle(n)      # explicit tolerances just below / not below Auto's switch for this size
+            dqs += [(0, lo), (rnd.choice([1, -1]), lo), (0, hi), (0, AX)]
+            tcases.append(dict(tree=t, n=n, dqs=dqs, tqs=[EX, AU, AX, lo, hi], allk=[], cls="small"))
     # ---- T2: large compact trees, full model: structural kinds / cheap generic products
     for n in L.BIG:
         for j in range(ctx.budget(2, 10)):
@@ -172,6 +174,23 @@ def run(ctx):
             # dense payloads are the slow ones on the implementation side: every offset only in the thorough tier
             allk = list(range(-n + 1, n)) if ctx.tier == "thorough" else sorted(set(offsets_sample(rnd, n, 30)) - {n, -n})
             gcases.append(dict(tree=t, n=n, vq=vq, allk=allk))
+    # ---- T4: Auto's exact-vs-stochastic decision on generic operators of size 900..1100 in every dtype (the default tolerance
+    #      must select the exact algorithm: m*n < 10^11), offsets and trace, default omitted / written out / straddling tolerances
+    acases = []
+    asizes = [900, 916, 917, 1000, 1100]
+    dts4 = ["float32", "complex64", "float64", "float32", "complex64", "complex128"]
+    rnd.shuffle(dts4)
+    for j, n in enumerate(asizes if ctx.tier != "thorough" else asizes * 3):
+        dt = dts4[j % len(dts4)]
+        g = L.SqGen(rnd, dt, vmax=2)
+        for _ in range(50):
+            t = g.big_cheap_generic(n) if rnd.random() < 0.7 else g.big_dense_generic(n)
+            if t["k"] not in L.STRUCT and t["k"] not in ("Sliced", "Transp", "Adj"):
+                break
+        lo, hi = L.straddle(n)
+        ks = [0, 1, -1, n - 1, -(n - 1), rnd.randint(2, n - 2), -rnd.randint(2, n - 2)]
+        qs = [(k, a) for k in ks for a in (AU, AX)] + [(0, EX), (rnd.choice(ks), EX), (0, lo), (1, lo), (0, hi), (-1, hi)]
+        acases.append(dict(tree=t, n=n, dt=dt, qs=qs, tqs=[AU, AX, EX, lo, hi]))
     # ---- implementation + oracle
     import cola
     nq_oracle = 0
@@ -209,12 +228,43 @@ def run(ctx):
                 fails, why = judge(t, n, D, k, o, what)
                 if a[0] == "tol" and o["cls"] in ("vec", "val"):
                     fails = False                       # exact despite the loose tolerance: fine
+                if a[0] != "tol" and o.get("err") == "DStoch":
+                    fails, why = True, "a stochastic estimate although the exact algorithm / the default tolerance was asked for"
                 if fails:
                     fl = spoiled(t, n, k, o, present, what)
                     if fl:
                         attributed[fl] = attributed.get(fl, 0) + 1
                     else:
                         mism.append(dict(oracle_fail=True, case=dict(tree=t, k=k, alg=a, what=what), got=o, oracle_says=why))
+    # T4: outcome classes (the exact value is compared here with the oracle's diagonal: by C08_generic_diag_cases that is the model's value)
+    aterms = []
+    for c in acases:
+        t, n = c["tree"], c["n"]
+        D = T.dense(t)
+        dobs, tobs = L.run_tree(t, c["qs"], c["tqs"])
+        c["dobs"], c["tobs"], c["allobs"] = dobs, tobs, []
+        cls = []
+        for (k, a), o in zip(c["qs"], dobs):
+            nq_oracle += 1
+            cl = L.outcome_class(o, np.diag(D, k))
+            cls.append((k, a, cl))
+            bad = cl != 0 if a[0] != "tol" else cl == 9
+            if bad:
+                fl = "exact_diag_ragged_chunk" if (cl == 1 and "exact_diag_ragged_chunk" in present and L.ragged(L.BS, n, k)) else None
+                if fl:
+                    attributed[fl] = attributed.get(fl, 0) + 1
+                else:
+                    mism.append(dict(oracle_fail=True, case=dict(tree=dict(k=t["k"], n=n, dt=c["dt"], parts=[x["k"] for x in L.subs(t)]), k=k, alg=a, what="diag"),
+                                     got=dict(cls=o["cls"], err=o.get("err"), head=str(o.get("val"))[:80]), oracle_says="outcome class %d (0 = the exact diagonal)" % cl))
+        for a, o in zip(c["tqs"], tobs):
+            nq_oracle += 1
+            cl = L.outcome_class(o, np.trace(D))
+            if (cl != 0 if a[0] != "tol" else cl == 9):
+                mism.append(dict(oracle_fail=True, case=dict(tree=dict(k=t["k"], n=n, dt=c["dt"]), alg=a, what="trace"),
+                                 got=dict(cls=o["cls"], err=o.get("err"), val=o.get("val")), oracle_says="outcome class %d (0 = the exact trace)" % cl))
+            cls.append((0, a, cl))          # trace(A, alg) = diag(A, 0, alg).sum(): same decision
+        c["cls"] = cls
+        aterms.append(L.coq_acase(n, df["ragged_fixed"], cls))
     # ---- model vs implementation inside Coq
     tterms = [L.coq_tcase(c["tree"], c["n"], c["dqs"], c["dobs"], c["tqs"], c["tobs"], df) for c in tcases]
     order = sorted(range(len(tcases)), key=lambda i: (tcases[i]["cls"] != "small", i))
@@ -250,7 +300,18 @@ def run(ctx):
                 mism.append(dict(oracle_fail=False, case=dict(tree=c["tree"] if c["n"] < 20 else dict(k=c["tree"]["k"], n=c["n"]), k=k,
                                                               kind="values" if kind == 3 else "raises?"),
                                  got=(c["dobs"][qi] if kind == 3 else c["allobs"][qi]), model_disagrees=True))
-    allc = tcases + gcases
+    bad, nq, err = L.eval_coq("c08_auto", aterms, "acase", "amism", "acount", 8)
+    nq_coq += nq
+    if err:
+        mism.append(dict(oracle_fail=False, harness_error=err))
+    else:
+        for ci, lst in bad.items():
+            c = acases[ci]
+            for kind, qi in lst[:6]:
+                k, a, cl = c["cls"][qi]
+                mism.append(dict(oracle_fail=False, case=dict(n=c["n"], dt=c["dt"], kind=c["tree"]["k"], k=k, alg=a), got=dict(outcome_class=cl),
+                                 model_disagrees=True, note="Auto's exact-vs-stochastic decision / raise class differs from generic_outcome"))
+    allc = tcases + gcases + acases
     hist = {}
     for c in allc:
         for k in set(T.kinds_of(c["tree"])):
@@ -260,7 +321,7 @@ def run(ctx):
         for o in c["dobs"] + c["tobs"] + c["allobs"]:
             key = o["cls"] + (":" + o["err"] if o["cls"] == "err" else "")
             outcome[key] = outcome.get(key, 0) + 1
-    distinct = len({(core.digest(c["tree"]), k) for c in allc for (k, _a) in (c.get("dqs") or [(k, 0) for k in c["vq"]])
+    distinct = len({(core.digest(c["tree"]), k) for c in allc for (k, _a) in (c.get("dqs") or c.get("qs") or [(k, 0) for k in c["vq"]])
                     if T.depth(c["tree"]) >= 2 or c["n"] > 6})
     return dict(
         evaluations=nq_oracle, distinct_nontrivial=distinct,
@@ -270,6 +331,6 @@ def run(ctx):
              "distinct = distinct (tree, offset) with tree depth >= 2 or n > 6",
         samples=[dict(tree=c["tree"], offsets=[q[0] for q in c["dqs"]][:8]) for c in tcases[:2]],
         mismatches=mism, findings=fnd,
-        extra=dict(tree_cases=len(tcases), dense_cases=len(gcases), queries_compared_in_coq=nq_coq, kind_histogram=hist,
+        extra=dict(tree_cases=len(tcases), dense_cases=len(gcases), auto_switch_cases=[(c["n"], c["dt"], c["tree"]["k"]) for c in acases], queries_compared_in_coq=nq_coq, kind_histogram=hist,
                    sizes=sorted({c["n"] for c in allc}), outcome_classes=outcome, attributed_to_present_flags=attributed, model_flags=df,
                    complex_cases=sum(1 for c in allc if any(d in T.CPLX for d in O.leaf_dts(c["tree"])))))
